@@ -1,4 +1,60 @@
-import SfxModel.ArithSpec
+import SfxProps.C01
+/-
+  C02 — checked / saturating / wrapping / overflowing forms agree on one exact result.
+  `FourForms L E chk sat wrp ovf` (SfxProofs/Forms.lean) says: checked = `some E` iff `E` representable else `none`;
+  saturating = `E` clamped; wrapping = `E mod 2^n`; overflowing = (`E mod 2^n`, `E` not representable); and every
+  outcome is `.ok _ false`, i.e. no panic in any build profile.
+-/
 namespace Sfx.C02
-theorem placeholder : True := trivial
+open Sfx.C01
+
+def C02_statement : Prop :=
+  ∀ L : Layout, L.valid → ∀ a b : Int, inRange L a → inRange L b →
+    -- negate, add, subtract
+    FourForms L (-a) (L.checkedNeg a) (L.saturatingNeg a) (L.wrappingNeg a) (L.overflowingNeg a) ∧
+    FourForms L (a + b) (L.checkedAdd a b) (L.saturatingAdd a b) (L.wrappingAdd a b) (L.overflowingAdd a b) ∧
+    FourForms L (a - b) (L.checkedSub a b) (L.saturatingSub a b) (L.wrappingSub a b) (L.overflowingSub a b) ∧
+    -- absolute value (signed types only)
+    (L.signed = true →
+      FourForms L (if a < 0 then -a else a) (L.checkedAbs a) (L.saturatingAbs a) (L.wrappingAbs a) (L.overflowingAbs a)) ∧
+    -- multiply; divide by a non-zero number
+    FourForms L (mulSpec L.f a b) (L.checkedMul a b) (L.saturatingMul a b) (L.wrappingMul a b) (L.overflowingMul a b) ∧
+    (b ≠ 0 → FourForms L (divSpec L.f a b) (L.checkedDiv a b) (L.saturatingDiv a b) (L.wrappingDiv a b) (L.overflowingDiv a b)) ∧
+    -- zero divisor: `None` for checked, the documented panic for the other forms
+    (L.checkedDiv a 0 = .ok none false ∧ L.saturatingDiv a 0 = .panic ∧ L.wrappingDiv a 0 = .panic ∧ L.overflowingDiv a 0 = .panic) ∧
+    -- multiply / divide by an integer `b` of the underlying primitive type (the API has no saturating_div_int)
+    FourForms L (a * b) (L.checkedMulInt a b) (L.saturatingMulInt a b) (L.wrappingMulInt a b) (L.overflowingMulInt a b) ∧
+    (b ≠ 0 → L.checkedDivInt a b = .ok (L.chk (Int.tdiv a b)) false ∧ L.wrappingDivInt a b = .ok (L.wrap (Int.tdiv a b)) false ∧
+              L.overflowingDivInt a b = .ok (L.ovf (Int.tdiv a b)) false) ∧
+    (L.checkedDivInt a 0 = .ok none false ∧ L.wrappingDivInt a 0 = .panic ∧ L.overflowingDivInt a 0 = .panic)
+
+theorem holds : C02_statement := by
+  intro L hv a b ha hb
+  obtain ⟨h2, _, _, hf⟩ := valid_facts hv
+  have hn : 0 < L.n := by omega
+  refine ⟨neg_forms L hn a ha, add_forms L hn a b ha hb, sub_forms L hn a b ha hb, fun hs => abs_forms L hn hs a ha,
+    (mul_forms L hn a b ha hb (mulOverflow_spec L hv a b ha hb)).1,
+    fun hb0 => (div_forms L hn hf a b ha hb hb0 (divOverflow_spec L hv a b ha hb hb0)).1, ?_,
+    mulInt_forms L hn a b ha hb, fun hb0 => divInt_forms L hn a b ha hb hb0, ?_⟩
+  · obtain ⟨h1, h2, h3, h4, _⟩ := div_zero_forms L a (divOverflow_zero L hv a ha)
+    exact ⟨h1, h2, h3, h4⟩
+  · obtain ⟨h1, h2, h3, _⟩ := divInt_zero L a
+    exact ⟨h1, h2, h3⟩
+
+/-- the plain operators: release value is the wrapped exact result; the debug-only panic fires exactly on overflow -/
+theorem plain_ops (L : Layout) (hv : L.valid) (a b : Int) (ha : inRange L a) (hb : inRange L b) :
+    L.addOp a b = .ok (L.wrap (a + b)) (!decide (inRange L (a + b))) ∧
+    L.subOp a b = .ok (L.wrap (a - b)) (!decide (inRange L (a - b))) ∧
+    L.negOp a = .ok (L.wrap (-a)) (!decide (inRange L (-a))) ∧
+    L.mulOp a b = .ok (L.wrap (mulSpec L.f a b)) (!decide (inRange L (mulSpec L.f a b))) ∧
+    (b ≠ 0 → L.divOp a b = .ok (L.wrap (divSpec L.f a b)) (!decide (inRange L (divSpec L.f a b)))) := by
+  obtain ⟨h2, _, _, hf⟩ := valid_facts hv
+  have hn : 0 < L.n := by omega
+  exact ⟨addOp_eq L a b, subOp_eq L a b, negOp_eq L a,
+    (mul_forms L hn a b ha hb (mulOverflow_spec L hv a b ha hb)).2,
+    fun hb0 => (div_forms L hn hf a b ha hb hb0 (divOverflow_spec L hv a b ha hb hb0)).2⟩
+
+/-- non-vacuity: `MIN` and `-1 ulp` of an all-fraction signed type are in range (the case that used to panic) -/
+example : (⟨true, 8, 8⟩ : Layout).valid ∧ inRange ⟨true, 8, 8⟩ (-128) ∧ inRange ⟨true, 8, 8⟩ (-1) ∧ (-1 : Int) ≠ 0 := by decide
+
 end Sfx.C02
